@@ -1,9 +1,10 @@
 (* Props/C15.v -- property C15: ToUnicode CMaps decode text as the CMap defines.
    Statements only; proofs live in Proofs/CMapProofs*.v.
    Models: Model/CMap.v (repaired code; *_v0 = the code as pinned), Model/RangeMap.v,
-   Model/CMapParser.v.  Spec: Spec/CMapSpec.v. *)
-From LV Require Import Base.Bytes Model.RangeMap Model.CMap Model.CMapParser Spec.CMapSpec Gen.CMapC
-  Proofs.CMapProofs Proofs.CMapProofsText Proofs.CMapParserProofs.
+   Model/CMapParser.v.  Specs: Spec/CMapSpec.v (what a CMap defines), Spec/CMapRender.v (the text of a
+   CMap, written from the syntax of the standard). *)
+From LV Require Import Base.Bytes Model.RangeMap Model.CMap Model.CMapParser Spec.CMapSpec Spec.CMapRender Gen.CMapC
+  Proofs.CMapProofs Proofs.CMapProofsText Proofs.CMapParserProofs Proofs.CMapRenderProofs Proofs.CMapTextProofs.
 
 Local Open Scope N_scope.
 
@@ -74,6 +75,161 @@ Proof. exact repetition_elements_consume. Qed.
 Theorem C15_example_truncated_array :
   range_target_array (bs "[ <0041>") = PErr /\ target_list_rest 1 [] = POk [] [].
 Proof. split; vm_compute; reflexivity. Qed.
+
+(* ---------- (6) from the CMap TEXT ---------- *)
+
+(* The parser round trip.  [render lay secs] (Spec/CMapRender.v) is the text of a ToUnicode CMap
+   written from the syntax of the standard: the frame (/CIDInit ProcSet, dict, begincmap, the
+   CIDSystemInfo dictionary, CMapName, CMapType ... endcmap, defineresource, end end) around the
+   sections [secs] in their order, each with its entry count; the layout [lay] decides every
+   blank (spaces / tabs, any number) inside a line, every line break (any non-empty mix of blanks,
+   CR, LF, CR LF and comments), the case of every hexadecimal digit, the white space inside target
+   strings, bare or bracketed single targets of one-code ranges, the blanks after [ and before ].
+   For EVERY layout and EVERY well-formed section list (at least one section, at least one entry
+   per section, codes of 1 to 4 bytes, targets of 1 to 256 UTF-16 units, arrays not empty) the
+   model of the grammar of cmap_parser.rs returns exactly the sections, with nothing left over.
+   Normalisation: none is needed -- the section type already is the grammar's own normal form
+   (a code is its (value, length) pair, a single target is the one-element list of targets).
+   Domain of [layout]: line oriented (the tokens of one entry are separated by blanks only), which
+   is how both documents write every CMap; see C15_grammar_is_line_oriented below. *)
+Theorem C15_parse_render :
+  forall lay secs, wf_sections secs -> cmap_stream (render lay secs) = POk secs [].
+Proof. exact cmap_stream_render. Qed.
+
+(* ToUnicodeCMap::parse of the text is from_sections of the sections *)
+Theorem C15_parse_render_cmap :
+  forall lay secs, wf_sections secs ->
+  cmap_parse (render lay secs) = match from_sections secs with FsOk cm => ParseOk cm | FsInvalidCodeRange => ParseErrRange end.
+Proof. exact cmap_parse_render. Qed.
+
+(* a well-formed text whose ranges run forwards is accepted; one with a backwards range is refused
+   as an invalid code range -- whatever the layout *)
+Theorem C15_text_accepted :
+  forall lay secs, wf_sections secs -> forward_sections secs ->
+  exists cm, from_sections secs = FsOk cm /\ cmap_parse (render lay secs) = ParseOk cm.
+Proof. exact parse_render_cmap. Qed.
+
+Theorem C15_text_backwards_range :
+  forall lay secs, wf_sections secs -> ~ forward_sections secs -> cmap_parse (render lay secs) = ParseErrRange.
+Proof. exact parse_render_backwards. Qed.
+
+(* every lookup in the CMap parsed from the text is the spec's: last definition wins, offset on
+   the last unit, arrays indexed (no typing hypothesis left: 1-4 byte codes fit u32) *)
+Theorem C15_text_get_eq_spec :
+  forall lay secs cm, wf_sections secs -> cmap_parse (render lay secs) = ParseOk cm ->
+  forall code len, get cm code len = lookup secs len code.
+Proof. exact get_of_text. Qed.
+
+(* THE PROPERTY END TO END, from the text: for every layout, every well-formed table (section list
+   with forward ranges) and every byte string made of defined codes, the text parses and
+   bytes_to_string on the parsed CMap gives the scalar values the CMap defines. *)
+Theorem C15_decodes_text :
+  forall lay secs (codes : list (bytes * list N * list N)),
+  wf_sections secs -> forward_sections secs -> Forall (defined_code secs) codes ->
+  exists cm, cmap_parse (render lay secs) = ParseOk cm /\
+             bytes_to_string cm (concat (map (fun x => fst (fst x)) codes)) = concat (map snd codes).
+Proof. exact decodes_text. Qed.
+
+(* non-vacuity: the example of ISO 32000-1 9.10.3 / TN 5411.  With the default layout the renderer
+   writes it as printed there (lower-case digits, the dictionary on one line); the hypotheses of
+   C15_decodes_text hold for it and <0021> <005F> <3A51> decode to "A", "ff", U+2003E. *)
+Definition iso_secs : list csection :=
+  [CsRange [(0, 65535, 2)];
+   BfRange [((0, 94, 2), [[32]]); ((95, 97, 2), [[102; 102]; [102; 105]; [102; 102; 108]])];
+   BfChar [((14929, 2), [55360; 56382])]].
+Definition iso_codes : list (bytes * list N * list N) :=
+  [([x00; x21], [65], [65]); ([x00; x5f], [102; 102], [102; 102]); ([x3a; x51], [55360; 56382], [131134])].
+Definition lay_default : layout := mkLayout [] [] [] [] [] 12 [] [].
+
+Ltac wf_solve :=
+  repeat first [ split | constructor | discriminate | (cbn [length]; lia) | (vm_compute; first [reflexivity | discriminate]) ].
+Ltac defined_solve :=
+  repeat first [ split | constructor | (cbn [length]; lia) | (vm_compute; reflexivity)
+               | (intros k Hk; cbn [length] in Hk; assert (k = 1%nat) by lia; subst k; vm_compute; reflexivity)
+               | (unfold high, low; lia) ].
+
+Theorem C15_example_text :
+  render lay_default iso_secs = bs
+"/CIDInit /ProcSet findresource begin
+12 dict begin
+begincmap
+/CIDSystemInfo << /Registry (Adobe) /Ordering (UCS) /Supplement 0 >> def
+/CMapName /Adobe-Identity-UCS def
+/CMapType 2 def
+1 begincodespacerange
+<0000> <ffff>
+endcodespacerange
+2 beginbfrange
+<0000> <005e> <0020>
+<005f> <0061> [<00660066> <00660069> <00660066006c>]
+endbfrange
+1 beginbfchar
+<3a51> <d840dc3e>
+endbfchar
+endcmap
+CMapName currentdict /CMap defineresource pop
+end
+end" /\
+  wf_sections iso_secs /\ forward_sections iso_secs /\ Forall (defined_code iso_secs) iso_codes /\
+  exists cm, cmap_parse (render lay_default iso_secs) = ParseOk cm /\
+             bytes_to_string cm [x00; x21; x00; x5f; x3a; x51] = [65; 102; 102; 131134].
+Proof.
+  split; [vm_compute; reflexivity|]. split; [wf_solve|]. split; [wf_solve|]. split; [defined_solve|].
+  eexists. split; vm_compute; reflexivity.
+Qed.
+
+(* ... and an unfriendly layout of the same table: tabs, CR alone, CR LF, comments (one holding
+   keywords and a %), upper and mixed case, white space inside a target string, a bracketed single
+   target, short layout lists (defaults) -- the text is as stated, and it parses to the same CMap *)
+Definition lay_odd : layout :=
+  mkLayout [WComment (bs "!PS-Adobe-3.0 Resource-CMap") CRLF; WEol LF]
+           [[]; [Tab; Space]]
+           [(Tab, []); (Space, [Space])]
+           [(WEol CR, []); (WBlank Space, [WComment (bs " endcmap % <00>") LF; WBlank Tab]); (WEol CRLF, [WEol CRLF])]
+           [[]; []; []; []; [WEol LF]; []; [WEol CR]]
+           7
+           [mkSecLay (Tab, [Tab]) (WEol CR, [])
+              [mkLineLay [true; false; true] [] [true; true; true; true] [] false [] [] [] (WBlank Space, [WEol LF])]
+              (WEol LF, []);
+            mkSecLay (Space, []) (WEol LF, [WBlank Space; WBlank Space])
+              [mkLineLay [] [Tab] [true] [] false [] [((Space, []), [mkUlay [true; true; true; true] [SEol LF; SBlank Space]])] []
+                         (WComment (bs "incrementing") CR, []);
+               mkLineLay [] [] [] [Space; Space] false [Tab]
+                         [((Space, []), [mkUlay [] [SBlank Space]]); ((Tab, [Space]), []); ((Space, []), [mkUlay [] []; mkUlay [false; true] [SEol CRLF]])]
+                         [Space] (WEol LF, [])]
+              (WEol LF, [])]
+           [WEol LF; WComment (bs "%EOF") LF].
+
+Theorem C15_example_text_odd :
+  render lay_odd iso_secs = bs
+"%!PS-Adobe-3.0 Resource-CMap\r
+\n/CIDInit/ProcSet\tfindresource  begin\r7 dict begin % endcmap % <00>
+\tbegincmap\r
+\r
+/CIDSystemInfo<</Registry(Adobe)/Ordering
+(UCS)/Supplement
+0\r>> def
+/CMapName\t /Adobe-Identity-UCS def
+/CMapType 2 def
+1\t\tbegincodespacerange\r<0000><FFFF> 
+endcodespacerange
+2 beginbfrange
+  <0000>\t<005e><0020
+ >%incrementing\r<005f><0061>  [\t<0066 0066>\t <00660069> <00660066006C\r
+> ]
+endbfrange
+1 beginbfchar
+<3a51> <d840dc3e>
+endbfchar
+endcmap
+CMapName currentdict /CMap defineresource pop
+end
+end
+%%EOF
+" /\
+  cmap_stream (render lay_odd iso_secs) = POk iso_secs [] /\
+  cmap_parse (render lay_odd iso_secs) = cmap_parse (render lay_default iso_secs).
+Proof. split; [vm_compute; reflexivity|]. split; vm_compute; reflexivity. Qed.
 
 (* ---------- the pinned code (before the fix: commits) violates (1) and (4) ---------- *)
 
@@ -164,6 +320,14 @@ Print Assumptions C15_parser_fuel_sufficient.
 Print Assumptions C15_parser_stream_fuel_sufficient.
 Print Assumptions C15_parser_repetitions_consume.
 Print Assumptions C15_example_truncated_array.
+Print Assumptions C15_parse_render.
+Print Assumptions C15_parse_render_cmap.
+Print Assumptions C15_text_accepted.
+Print Assumptions C15_text_backwards_range.
+Print Assumptions C15_text_get_eq_spec.
+Print Assumptions C15_decodes_text.
+Print Assumptions C15_example_text.
+Print Assumptions C15_example_text_odd.
 Print Assumptions C15_pinned_split_refuted.
 Print Assumptions C15_pinned_coalesce_refuted.
 Print Assumptions C15_pinned_coalesce_array_panics.
